@@ -27,7 +27,17 @@ thread_local! {
 /// when set, the next comparison / hash / format of an `A` payload panics (and clears the flag)
 pub static OBS_PANIC: AtomicBool = AtomicBool::new(false);
 pub struct ObsPanic;
+thread_local! {
+    /// run inside every comparison / hash / format of an `A` payload: lets a case look at the counts while a
+    /// handle-level comparison, hash or format is in progress
+    pub static OBS_HOOK: std::cell::RefCell<Option<Box<dyn FnMut()>>> = const { std::cell::RefCell::new(None) };
+}
 fn obs_fault() {
+    let f = OBS_HOOK.with(|h| h.borrow_mut().take());
+    if let Some(mut f) = f {
+        f();
+        OBS_HOOK.with(|h| *h.borrow_mut() = Some(f));
+    }
     if OBS_PANIC.swap(false, Ordering::SeqCst) {
         std::panic::panic_any(ObsPanic);
     }
